@@ -33,7 +33,13 @@ let write_replay (d : drv) (kind : string) (details : string) : string =
 let reuse_chain = ref 0
 let force_fresh = ref true
 
+(* wall-clock budget per checker process: once it is used up the remaining cases are skipped (and counted), so that a slow
+   or loaded machine gives a smaller exploration instead of a timeout; a hang INSIDE a case is still killed from outside *)
+let t_start = Unix.gettimeofday ()
+let time_budget () = if !tier = "quick" then 900.0 else 3000.0
+
 let run_case (s : sess) (f : unit -> unit) =
+  if Unix.gettimeofday () -. t_start > time_budget () then bump "cases_skipped_time_budget" else begin
   bump "cases";
   let saved = match !the_rng with Some r -> Some r.st | None -> None in
   let record kind details =
@@ -61,6 +67,7 @@ let run_case (s : sess) (f : unit -> unit) =
     violations := ("crash", "driver died executing: " ^ cmd, path) :: !violations;
     bump "violations_crash";
     raise Exit
+  end
 
 (* ---------- what to observe at a node ---------- *)
 type plan = {
